@@ -259,11 +259,14 @@ Definition scripted_exec (script : list behaviour) (n : N) (q : request) : exec_
 (* ------------------------------------------------------------------ *)
 (** * 2. The write stream wrapper                                       *)
 
-Inductive sres := SOk (r : N) | SErrSend | SEOF.
+Inductive sres := SOk (r : N) | SErrSend | SEOF | SErrCtx.
 
 (* SSend f ok : Send() for future f, stream.Send succeeds or not;  SRecvOk r : stream.Recv() returns a response;
-   SRecvErr : stream.Recv() returns an error;  SCtxDone : stream.Context() is done. *)
-Inductive sevent := SSend (f : N) (ok : bool) | SRecvOk (r : N) | SRecvErr | SCtxDone.
+   SRecvErr : stream.Recv() returns an error;  SCtxDone : stream.Context() is done;
+   SWaitCancel f : the context passed to Send() for f (per-request timeout / cancellation) is done while Send
+   waits in f.Wait(ctx): Send returns the context error, the future STAYS in pendingRequests (the request is
+   on the wire and the server will still answer it). *)
+Inductive sevent := SSend (f : N) (ok : bool) | SRecvOk (r : N) | SRecvErr | SCtxDone | SWaitCancel (f : N).
 
 (* SDone f r : the Send() call for f returns r *)
 Inductive sobs := SDone (f : N) (r : sres) | SPanicked.
@@ -278,6 +281,18 @@ Record sstate := mkS {
   ss_dead : bool }.
 
 Definition sinit : sstate := mkS [] false false false false.
+
+(* the first future of f somebody still waits on is abandoned; None: nobody waits on f *)
+Fixpoint abandon (f : N) (p : list (N * bool)) : option (list (N * bool)) :=
+  match p with
+  | [] => None
+  | (g, live) :: tl =>
+      if N.eqb g f && live then Some ((g, false) :: tl)
+      else match abandon f tl with
+           | Some tl' => Some ((g, live) :: tl')
+           | None => None
+           end
+  end.
 
 Definition eof_obs (p : list (N * bool)) : list sobs :=
   flat_map (fun fl : N * bool => if snd fl then [SDone (fst fl) SEOF] else []) p.
@@ -304,6 +319,11 @@ Definition stream_step (guard : bool) (s : sstate) (ev : sevent) : sstate * list
   | SCtxDone =>
       if ss_closed_exited s then (s, [])
       else (mkS [] true (ss_recv_exited s) true false, eof_obs (ss_pending s))
+  | SWaitCancel f =>
+      match abandon f (ss_pending s) with
+      | Some p' => (mkS p' (ss_failed s) (ss_recv_exited s) (ss_closed_exited s) false, [SDone f SErrCtx])
+      | None => (s, [])
+      end
   end.
 
 Fixpoint stream_run_from (guard : bool) (s : sstate) (evs : list sevent) : sstate * list sobs :=
